@@ -71,6 +71,19 @@ impl Scenario for Foreign {
                 l.z64_end_real = if r.chance(1, 2) { r.range(1, 7) as u8 } else { 0 };
             }
         }
+        if self.z64 && rs.chance(1, 10) {
+            // offsets that really do not fit in 32 bits: a hole of about 4 GiB between the prepended data and
+            // the first local header (sparse disk), so every offset travels in a ZIP64 record
+            const G4: u64 = 1 << 32;
+            let mut rh = Rng::derive(s, "hole");
+            l.hole = match rh.below(4) {
+                0 => G4 - 1 - rh.below(300),
+                1 => G4 + rh.below(300),
+                2 => 5 * (1 << 30) + rh.below(1 << 20),
+                _ => G4 - 400 + rh.below(800),
+            };
+            l.trailing = 0;
+        }
         if rs.chance(1, 8) {
             lengthen_tail(&mut r, &mut l);
         }
@@ -115,17 +128,29 @@ impl Scenario for Foreign {
             }
             if b.zip64_end && l.prefix > 0 {
                 // forward search for the ZIP64 end record starts at the nominal offset: an earlier PK66 wins
-                let p = match indep::parse(img.as_slice()) {
-                    Ok(p) => p,
-                    Err(e) => return Verdict::Harness(format!("builder output does not parse: {e}")),
+                let amb = if b.hole > 0 {
+                    let st = b.store();
+                    let g = st.lock().unwrap_or_else(|e| e.into_inner());
+                    match indep::parse(&*g) {
+                        Ok(p) => indep::ambiguous(&*g, &p).is_some(),
+                        Err(e) => return Verdict::Harness(format!("builder output (with hole) does not parse: {e}")),
+                    }
+                } else {
+                    match indep::parse(img.as_slice()) {
+                        Ok(p) => indep::ambiguous(img.as_slice(), &p).is_some(),
+                        Err(e) => return Verdict::Harness(format!("builder output does not parse: {e}")),
+                    }
                 };
-                if indep::ambiguous(img.as_slice(), &p).is_some() {
+                if amb {
                     ctx.probe("ambiguity_skipped");
                     return Verdict::Skip("format-inherent ambiguity: ZIP64 end-record signature before the record".into());
                 }
             }
         }
-        let store = shared_from(img);
+        let store = b.store();
+        if b.hole > 0 {
+            ctx.probe("offsets_beyond_4gib_on_a_sparse_disk");
+        }
         let disk = SimDisk::new(store.clone(), c.read.clone());
         let io = disk.io.clone();
         let mut ar = match guard(|| ZipArchive::new(disk)) {
@@ -193,9 +218,9 @@ impl Scenario for Foreign {
                     let lm = f.last_modified();
                     chk((lm.datepart(), lm.timepart()) == e.dos, "timestamp", format!("{:#x},{:#x}", lm.datepart(), lm.timepart()), format!("{:#x},{:#x}", e.dos.0, e.dos.1))?;
                     chk(f.extra_data() == inf.central_extra.as_slice(), "extra-data", format!("{} bytes", f.extra_data().len()), format!("{} bytes", inf.central_extra.len()))?;
-                    chk(f.header_start() == inf.header_start, "header-start", f.header_start().to_string(), inf.header_start.to_string())?;
-                    chk(f.data_start() == inf.data_start, "data-start", f.data_start().to_string(), inf.data_start.to_string())?;
-                    chk(f.central_header_start() == inf.central_start, "central-header-start", f.central_header_start().to_string(), inf.central_start.to_string())?;
+                    chk(f.header_start() == b.abs(inf.header_start), "header-start", f.header_start().to_string(), b.abs(inf.header_start).to_string())?;
+                    chk(f.data_start() == b.abs(inf.data_start), "data-start", f.data_start().to_string(), b.abs(inf.data_start).to_string())?;
+                    chk(f.central_header_start() == b.abs(inf.central_start), "central-header-start", f.central_header_start().to_string(), b.abs(inf.central_start).to_string())?;
                     chk(f.version_made_by() == (e.ver / 10, e.ver % 10), "version-made-by", format!("{:?}", f.version_made_by()), format!("{:?}", (e.ver / 10, e.ver % 10)))?;
                     // attribute -> Unix mode mapping
                     let got = f.unix_mode();
@@ -281,7 +306,7 @@ impl Scenario for Foreign {
                     Some(Enc::ZipCrypto { pw, .. }) | Some(Enc::Aes { pw, .. }) => ar.by_name_decrypt(nm, &pw.0).ok().and_then(|r| r.ok()).map(|f| f.central_header_start()),
                     None => ar.by_name(nm).ok().map(|f| f.central_header_start()),
                 };
-                if got != Some(b.infos[*i].central_start) {
+                if got != Some(b.abs(b.infos[*i].central_start)) {
                     return Err(viol(format!("{pfx}/by-name"), format!("by_name({nm:?}) resolved to central header at {got:?}, expected the last entry with that name (index {i}, at {})", b.infos[*i].central_start)));
                 }
                 if names.iter().filter(|x| *x == nm).count() > 1 {
